@@ -117,12 +117,6 @@ Proof.
   intros lo l. unfold apply_bounds, window. apply filter_ext. intros t. now rewrite check_bounds_split.
 Qed.
 
-Lemma pmatch_pkey : forall q p, pmatch q p = pkey_eqb (pkey_of q) (pkey_of p).
-Proof.
-  intros q p. unfold pmatch, pkey_eqb, pkey_of. cbn.
-  destruct (panchor q); destruct (panchor p); cbn; auto.
-Qed.
-
 Lemma pmatch_split : forall q p, pmatch q p = N.eqb (pid p) (pid q) && pcheck (Some q) p.
 Proof.
   intros q p. unfold pmatch, pcheck, kind_eqb, is_temporal. rewrite (N.eqb_sym (pid p) (pid q)).
@@ -158,7 +152,7 @@ Proof. intros. unfold window, candidates. repeat apply NoDup_filter. now apply N
 Lemma query_pred_redundant : forall q t, matches q t = true -> query_pred_ok current (q_flt_pred q) t = true.
 Proof.
   intros q t. unfold query_pred_ok. cbn [v_inst current].
-  destruct q; cbn [matches q_flt_pred]; auto; rewrite ?andb_true_iff, pmatch_pkey; tauto.
+  destruct q; cbn [matches q_flt_pred]; auto; rewrite ?andb_true_iff; unfold pmatch, same_predicate; tauto.
 Qed.
 
 Lemma window_matches : forall g q lo t, In t (window lo (candidates q g)) -> matches q t = true.
